@@ -125,3 +125,34 @@ Theorem C01_collect_all_exact : forall fuel S D vars obj sets g',
   forall k o, in_group g' k o <-> exists s, In s sets /\ Occurs S D vars obj s k o.
 Proof. exact collect_all_exact_full. Qed.
 Print Assumptions C01_collect_all_exact.
+
+(* ---- table generated from the source (harness/gen.go writes Gen/Directives.v from the linked
+   graphql.SpecifiedDirectives before every check run; these are re-proved then) ---- *)
+From GQL Require Gen.Directives Tables.DirectiveTable.
+
+(* @skip and @include as declared in directives.go are what the model assumes: usable on fields,
+   fragment spreads and inline fragments, with exactly one argument `if: Boolean!` without default. *)
+Theorem C01_gen_skip_include_declared : forall n, n = "skip" \/ n = "include" ->
+  Tables.DirectiveTable.find_gdirective n Gen.Directives.specified_directives
+  = Some (Tables.DirectiveTable.cond_directive n).
+Proof. intros n [-> | ->]; vm_compute; reflexivity. Qed.
+Print Assumptions C01_gen_skip_include_declared.
+
+(* Exec.included (through bool_arg) and PlanCollect.plan_directives (through bool_arg_static)
+   read the condition exactly as getArgumentValues does for the declared argument: the value of
+   the declared argument name, coerced at the declared argument type. *)
+Theorem C01_gen_condition_argument : forall n a, n = "skip" \/ n = "include" ->
+  Tables.DirectiveTable.sole_arg n = Some a ->
+  forall S d vars,
+    bool_arg S d vars
+    = match value_from_ast 3 S (Tables.DirectiveTable.to_tyref (Gen.Directives.ga_type a))
+                           (alookup (Gen.Directives.ga_name a) (d_args d)) (Some vars) with
+      | Some v => v | None => JNull end /\
+    bool_arg_static S d
+    = match value_from_ast 3 S (Tables.DirectiveTable.to_tyref (Gen.Directives.ga_type a))
+                           (alookup (Gen.Directives.ga_name a) (d_args d)) None with
+      | Some v => v | None => JNull end.
+Proof.
+  intros n a [-> | ->] H; vm_compute in H; injection H as <-; intros S d vars; split; reflexivity.
+Qed.
+Print Assumptions C01_gen_condition_argument.
